@@ -147,6 +147,14 @@ def gen_impure_stack(rng):
             parts.reverse()
         desc = {'k': 'chain', 'flavour': 'chain', 'layers': [{'k': 'merge', 'parts': parts}, top]}
         kind = kind + '+merge'
+    elif nest and len(layers) >= 2 and layers[1]['k'] == 'transform' and kind in ('ram', 'disk') and rng.random() < 0.6:
+        # the tail of the pipeline as a block that is built on its own first and nested twice: src >> Chain(T1, ..., Chain(TI, top));
+        # the layer that must refuse sits inside the inner chain, the impure function outside of the block
+        ti = {'k': 'transform', 'cls': 'TI', 'fields': {}, 'params': {}, 'cargs': {}, 'defaults': {}, 'inherit': True}
+        inner = {'k': 'chain', 'flavour': rng.choice(['chain', 'rshift']), 'layers': [ti, top]}
+        block = {'k': 'chain', 'flavour': 'chain', 'layers': layers[1:] + [inner]}
+        desc = {'k': 'chain', 'flavour': rng.choice(['chain', 'rshift']), 'layers': [layers[0], block]}
+        kind = kind + '+nested-twice'
     elif nest and len(layers) >= 2:
         desc = {'k': 'chain', 'flavour': 'chain', 'layers': [{'k': 'chain', 'flavour': 'chain', 'layers': layers}, top]}
     else:
